@@ -1,4 +1,4 @@
-import SqlgrepModel.Lemmas.AggFindings
+import SqlgrepModel.Lemmas.AggFollowJoin
 /-
 C11 — incremental (tail -f) results equal a batch run over the same prefix.
 
@@ -157,6 +157,31 @@ theorem follow_eq_batch_prefix_via_spec {O : Oracles} {q : AggStmt} (hwf : StmtW
     ∃ sb, aggRun O q (pre ++ [env]) {} = .ok sb)
   rw [hsb]
   exact follow_table_eq_batch hwf hlim pre env hfollow hupd hres hsb hspec hclass
+
+/-! ### follow mode over a JOIN -/
+
+/-- for an aggregate statement over a JOIN the executed per-line step (default config) sends the rows of the line's join
+partners (`lineEnvs`, which is the nested loop's `rowsOf`: `Props.C05.join_refines_nested_loop`) one by one through
+update + result and concatenates the results -/
+theorem agg_follow_join_step (O : Oracles) (qy : Query) (q : AggStmt) (idx : JoinIndex) (es : EngineState) (l : Line)
+    (hq : qy.stmt = .aggregate q) (hadm : anyResult l.row = true) :
+    executeLine O qy idx true es l =
+      (lineEnvs qy idx false l).bind (fun envs =>
+        (executeLine.go O q envs es.agg none).bind (fun p => .ok (updateLimit false q.limit { es with agg := p.1 } p.2))) :=
+  executeLine_follow_join O qy q idx es l hq hadm
+
+/-- **follow-mode refinement with joins**: starting from a follow-mode state similar to the batch-mode state after the same
+rows, the refresh for a line with partner rows `envs` is exactly the concatenation (`extendAll`) of the tables a batch run
+would show after each admitted partner row (`tablesAfter`: update only, then the table of `execute_result` at that point),
+and the states stay similar. Hence with at most one admitted partner the refresh IS the batch table over everything fed so
+far (C11 holds); with several partners it is that table preceded by the intermediate ones — finding D61. -/
+theorem follow_join_refresh_is_table_per_partner {O : Oracles} {q : AggStmt} (envs : List (Env × List String))
+    {sf sb sf' sb' : AggState} {S K : List (List Value)} (h : Sim2 q sf sb S) (hS : ∀ k ∈ S, k ∈ K)
+    (hK : ∀ k ∈ groupKeysOf O q (envs.map (·.1)), k ∈ K) (hex : KeysExact K)
+    {acc r : Option RowOut} {ts : List RowOut}
+    (hf : executeLine.go O q envs sf acc = .ok (sf', r)) (hb : tablesAfter O q (envs.map (·.1)) sb = .ok (sb', ts)) :
+    r = extendAll acc ts ∧ ∃ S', Sim2 q sf' sb' S' ∧ ∀ k ∈ S', k ∈ K :=
+  go_tables envs h hS hK hex hf hb
 
 /-! ### negation witnesses of the two open findings of this property -/
 
